@@ -35,6 +35,7 @@ type Front struct {
 	LateForce      []int   `json:"late_force,omitempty"`     // after the first round of writes: force-import path LateForce[2k+1] into file LateForce[2k] (no declaration follows)
 	Rewrites       int     `json:"rewrites,omitempty"`       // extra rounds of writing every file at the end (the last round counts)
 	WriteOrder     []int   `json:"write_order,omitempty"`    // order in which the files are written at the end (permutation code)
+	ReuseImporter  *imp.Importer `json:"-"` // environment: the importer (with every package it has imported) of an earlier build of the process
 	SharedImporter bool    `json:"-"`                        // environment, not history: standard packages come from one importer shared by the builds of this process
 	CompleteEarly  bool    `json:"complete_early,omitempty"` // grouped type declarations are closed before their lazily loaded members get a type
 	XGoBuiltin     bool    `json:"xgo_builtin,omitempty"`    // XGo-style configuration: untyped big types, overloaded println, builtin-type methods
@@ -264,7 +265,10 @@ func (e *Env) build(p *prog.Program, f *Front, hooks *minicl.Hooks, ce *CorpusEn
 	r := &Result{Files: map[string][]byte{}, WriteErr: map[string]string{}, FaultFired: map[string]int{}}
 	fset := token.NewFileSet()
 	var im *imp.Importer
-	if f.SharedImporter {
+	if f.ReuseImporter != nil {
+		im = f.ReuseImporter
+		fset = im.Fset()
+	} else if f.SharedImporter {
 		if e.Shared == nil {
 			e.Shared = e.Exports.NewSharedGC()
 		}
